@@ -755,3 +755,86 @@ package channel
 //@ func (noApp).ValidInit
 //@   requires s != nil
 //@   ensures result == nil <==> typeof(s.Data) == typetag("*noData")
+
+// ---------------------------------------------------------------------------
+// Balance arithmetic and sub-allocation lookup (used by the client's update validation: C07, C12)
+// ---------------------------------------------------------------------------
+
+// balSum(s): total of a balance vector; allocSum(a, i): total of asset i over participant balances and locked funds.
+// The summation loops are verified for shape (lengths, freshness, non-nil); that the values are these totals is a
+// trusted postcondition (the ghost totals are functions of the slice, so they are only meaningful in functions that
+// do not overwrite existing amounts - which the frame obligations of each verified function establish).
+//@ ghost func balSum(s []Bal) int
+//@ ghost func allocSum(a Allocation, i int) int
+
+//@ pred freshBals(s []Bal) = forall k int :: 0 <= k && k < len(s) ==> s[k] != nil && fresh(s[k])
+
+//@ func (Balances).Sum
+//@   requires nonNilBalances(b)
+//@   ensures len(result) == len(b) && fresh(arr(result)) && off(result) == 0 && freshBals(result)
+//@   trustedensures forall i int :: 0 <= i && i < len(b) ==> val(result[i]) == balSum(b[i])
+//@   loop 1
+//@     modifies totals[*]
+//@     invariant len(totals) == n && n == len(b) && fresh(arr(totals)) && off(totals) == 0
+//@     invariant forall k int :: 0 <= k && k < $i ==> totals[k] != nil && fresh(totals[k])
+//@   loop 2
+//@     modifies fresh
+//@     invariant len(totals) == len(b) && fresh(arr(totals)) && off(totals) == 0 && freshBals(totals)
+//@   loop 3
+//@     modifies fresh
+//@     invariant 0 <= i && i < len(b) && asset == b[i] && len(totals) == len(b) && fresh(arr(totals)) && off(totals) == 0 && freshBals(totals)
+
+//@ func (Allocation).Sum
+//@   requires nonNilBalances(a.Balances) && nonNilLocked(a.Locked) && forall l int :: 0 <= l && l < len(a.Locked) ==> len(a.Locked[l].Bals) <= len(a.Balances)
+//@   ensures len(result) == len(a.Balances) && fresh(arr(result)) && off(result) == 0 && freshBals(result)
+//@   trustedensures forall i int :: 0 <= i && i < len(a.Balances) ==> val(result[i]) == allocSum(a, i)
+//@   loop 1
+//@     modifies fresh
+//@     invariant len(totals) == len(a.Balances) && fresh(arr(totals)) && off(totals) == 0 && freshBals(totals)
+//@   loop 2
+//@     modifies fresh
+//@     invariant len(totals) == len(a.Balances) && fresh(arr(totals)) && off(totals) == 0 && freshBals(totals)
+
+// Element-wise sum and difference of two balance matrices of equal dimensions (operate panics otherwise).
+//@ pred sameDims(a Balances, b Balances) = len(a) == len(b) && forall i int :: 0 <= i && i < len(a) ==> len(a[i]) == len(b[i])
+//@ pred freshBalances(c Balances) = fresh(arr(c)) && off(c) == 0 && forall i int :: 0 <= i && i < len(c) ==> fresh(arr(c[i])) && off(c[i]) == 0 && freshBals(c[i])
+
+//@ func (Balances).operate
+//@   inline
+
+//@ func (Balances).Add
+//@   requires nonNilBalances(b) && nonNilBalances(a) && sameDims(a, b)
+//@   ensures sameDims(result, b) && freshBalances(result)
+//@   ensures forall i, j int :: 0 <= i && i < len(b) && 0 <= j && j < len(b[i]) ==> val(result[i][j]) == val(b[i][j]) + val(a[i][j])
+//@   loop (Balances).operate.1
+//@     modifies c[*]
+//@     invariant len(c) == len(a) && fresh(arr(c)) && off(c) == 0
+//@     invariant forall k int :: 0 <= k && k < $i ==> len(c[k]) == len(a[k]) && fresh(arr(c[k])) && off(c[k]) == 0 && freshBals(c[k])
+//@     invariant forall k, l int :: 0 <= k && k < $i && 0 <= l && l < len(a[k]) ==> val(c[k][l]) == val(b[k][l]) + val(a[k][l])
+//@   loop (Balances).operate.2
+//@     modifies c[i][*]
+//@     invariant 0 <= i && i < len(a) && len(c) == len(a) && len(c[i]) == len(a[i]) && len(b[i]) == len(a[i]) && fresh(arr(c[i])) && off(c[i]) == 0
+//@     invariant forall l int :: 0 <= l && l < $i ==> c[i][l] != nil && fresh(c[i][l]) && val(c[i][l]) == val(b[i][l]) + val(a[i][l])
+
+//@ func (Balances).Sub
+//@   requires nonNilBalances(b) && nonNilBalances(a) && sameDims(a, b)
+//@   ensures sameDims(result, b) && freshBalances(result)
+//@   ensures forall i, j int :: 0 <= i && i < len(b) && 0 <= j && j < len(b[i]) ==> val(result[i][j]) == val(b[i][j]) - val(a[i][j])
+//@   loop (Balances).operate.1
+//@     modifies c[*]
+//@     invariant len(c) == len(a) && fresh(arr(c)) && off(c) == 0
+//@     invariant forall k int :: 0 <= k && k < $i ==> len(c[k]) == len(a[k]) && fresh(arr(c[k])) && off(c[k]) == 0 && freshBals(c[k])
+//@     invariant forall k, l int :: 0 <= k && k < $i && 0 <= l && l < len(a[k]) ==> val(c[k][l]) == val(b[k][l]) - val(a[k][l])
+//@   loop (Balances).operate.2
+//@     modifies c[i][*]
+//@     invariant 0 <= i && i < len(a) && len(c) == len(a) && len(c[i]) == len(a[i]) && len(b[i]) == len(a[i]) && fresh(arr(c[i])) && off(c[i]) == 0
+//@     invariant forall l int :: 0 <= l && l < $i ==> c[i][l] != nil && fresh(c[i][l]) && val(c[i][l]) == val(b[i][l]) - val(a[i][l])
+
+// Lookup of the sub-allocation of a sub-channel: the first entry with that id.
+//@ pred lockedHas(l []SubAlloc, id ID) = exists i int :: 0 <= i && i < len(l) && l[i].ID == id
+//@ func (Allocation).SubAlloc
+//@   ensures ok <==> lockedHas(a.Locked, subchannel)
+//@   ensures ok ==> exists i int :: 0 <= i && i < len(a.Locked) && a.Locked[i].ID == subchannel && subAlloc.ID == subchannel &&
+//@           subAlloc.Bals == a.Locked[i].Bals && subAlloc.IndexMap == a.Locked[i].IndexMap
+//@   loop 1
+//@     invariant forall k int :: 0 <= k && k < $i ==> a.Locked[k].ID != subchannel
